@@ -1,6 +1,15 @@
 #!/bin/bash
-# MANIFEST.setup_cmd: offline build of the harness from files on disk (cargo registry cache + /repo + /verif).
+# MANIFEST.setup_cmd: offline build of everything the checks need, from files on disk only
+# (cargo registry cache + /repo + /verif). Safe to re-run.
 set -e
 export CARGO_NET_OFFLINE=true
 cd "$(dirname "$0")/harness"
-cargo build --release -p vcheck 2>&1 | tail -3
+cargo build --release -p vcheck 2>&1 | tail -2
+# C18 probes: one cfgdiff binary per buildable feature set of tls-parser, and the Send/Sync probe
+( cd cfgdiff
+  CARGO_TARGET_DIR=../target-cfg-none cargo build --release -q 2>/dev/null
+  CARGO_TARGET_DIR=../target-cfg-std  cargo build --release -q --features std 2>/dev/null
+  CARGO_TARGET_DIR=../target-cfg-ser  cargo build --release -q --features std,serialize 2>/dev/null
+  CARGO_TARGET_DIR=../target-cfg-bad  cargo check --release -q --features serialize 2>/dev/null || true )
+( cd sendsync && CARGO_TARGET_DIR=../target-cfg-sendsync cargo check --release -q 2>/dev/null )
+echo "setup done"
